@@ -98,8 +98,18 @@ func mapsWithSeveralEntries(v model.Val) bool {
 	return false
 }
 
+// an earlier caller: it parsed the empty forms of every kind and filled what it got (its results are its own)
+func earlierCaller() {
+	lib.Call(func() {
+		for _, text := range []string{"[ ](List)", "[ ](Set)", "[ ](Stack)", "[ ](Queue)", "[:](Catalog)", "[:](Map)", "[[ ](List), [ ](Set)](List)", "[\"k\": [ ](List)](Catalog)"} {
+			scribble(mod.ParseSource(text + "\n"))
+		}
+	})
+}
+
 func execRoundTrip(c rtCase, _ core.Source) (res core.Result) {
 	res.Classes = c.Classes
+	earlierCaller()
 	var obj any
 	if p, payload := lib.Call(func() { obj = model.Build(c.V) }); p {
 		res.Violation = core.Violate("C10/build-panicked", "building %v through the class constructors panicked: %s", c.V, lib.Short(payload))
@@ -116,6 +126,9 @@ func execRoundTrip(c rtCase, _ core.Source) (res core.Result) {
 		res.Violation = core.Violate("C10/parse-rejects-formatted-text"+rejectClass(payload), "ParseSource rejected the text FormatValue produced for %v:\n%s\n%s", a0, text, lib.Short(payload))
 		return
 	}
+	// what a parse returns belongs to the caller: when this case is over every collection of the result is
+	// changed in place (values appended to the empty ones too), which no later round trip may notice
+	defer func() { lib.Call(func() { scribble(parsed) }) }()
 	a1 := model.Abstract(parsed)
 	if !model.Identical(a0, a1) {
 		res.Violation = core.Violate("C10/value-changed", "round trip changed the value:\n  before %v\n  after  %v\n  text:\n%s", a0, a1, text)
